@@ -304,6 +304,7 @@ func Run(c *vh.Ctx) {
 		e.reorderStream(m)
 		lap("reorder stream")
 		e.closureProbe()
+		e.panicStackProbe()
 		e.ksortModelStream(m, ksortCases())
 		lap("closure probe; ksort/krsort against the model")
 		return
@@ -326,6 +327,7 @@ func Run(c *vh.Ctx) {
 	e.reorderStream(m)
 	lap("reorder stream")
 	e.closureProbe()
+	e.panicStackProbe()
 	e.ksortModelStream(m, ksortCases())
 	lap("closure probe; ksort/krsort against the model")
 }
@@ -570,7 +572,7 @@ func (e *env) replay(m *vh.Model) {
 			omCheck(c, m, []omCase{cs})
 		}
 		return
-	case "reorder", "ksortm", "closure":
+	case "reorder", "ksortm", "closure", "panicstack":
 		bin, err := buildOrigami(c.Repo, c.Scratch)
 		if err != nil {
 			c.Mismatch(nil, err.Error(), "", "interpreter build failed")
@@ -580,6 +582,8 @@ func (e *env) replay(m *vh.Model) {
 		_, e.need = calibrate()
 		if probe.Kind == "closure" {
 			e.closureProbe()
+		} else if probe.Kind == "panicstack" {
+			e.panicStackProbe()
 		} else if probe.Kind == "reorder" {
 			var rc reorderCase
 			if json.Unmarshal(c.ReplayRaw, &rc) == nil {
